@@ -236,6 +236,32 @@ def text_converter(mod) -> str:
             f"def t_text_page_end : Str :=\n  {chars(page_end.value)}\n")
 
 
+def bbox2str_def() -> str:
+    """utils.bbox2str: tuple unpacking + one f-string of `:.3f` fields -> Lean over signed rationals."""
+    mod = P.parse_file("pdfminer/utils.py")
+    fn = P.find_function(mod, "bbox2str")
+    if len(fn.args.args) != 1 or len(fn.body) != 2:
+        raise P.Untranslatable("bbox2str: shape")
+    un, ret = fn.body
+    if not (isinstance(un, ast.Assign) and isinstance(un.targets[0], ast.Tuple) and isinstance(un.value, ast.Name)
+            and un.value.id == fn.args.args[0].arg and all(isinstance(e, ast.Name) for e in un.targets[0].elts)):
+        raise P.Untranslatable("bbox2str: unpacking")
+    names = [e.id for e in un.targets[0].elts]
+    if not (isinstance(ret, ast.Return) and isinstance(ret.value, ast.JoinedStr)):
+        raise P.Untranslatable("bbox2str: return is not an f-string")
+    terms = []
+    for v in ret.value.values:
+        if isinstance(v, ast.Constant) and isinstance(v.value, str):
+            terms.append(chars(v.value))
+        elif isinstance(v, ast.FormattedValue) and isinstance(v.value, ast.Name) and v.value.id in names \
+                and isinstance(v.format_spec, ast.JoinedStr) and len(v.format_spec.values) == 1 \
+                and isinstance(v.format_spec.values[0], ast.Constant) and v.format_spec.values[0].value == ".3f":
+            terms.append(f"fmtF3 {v.value.id}")
+        else:
+            raise P.Untranslatable("bbox2str: f-string piece " + ast.dump(v)[:80])
+    return (f"def bbox2str ({' '.join(names)} : SRat) : List Char :=\n  " + " ++ ".join(terms) + "\n")
+
+
 def generate(lean_dir: str):
     mod = P.parse_file("pdfminer/converter.py")
     ranges = control_ranges(mod)
@@ -275,4 +301,9 @@ def generate(lean_dir: str):
            "\nend PdfVerif.Gen.ConvertXml\n")
     p2 = os.path.join(lean_dir, "PdfVerif", "Gen", "ConvertXml.lean")
     P.write_if_changed(p2, xml)
-    return [p1, p2]
+    fmt = ("/-\n  GENERATED by /verif/tools/translate/gen_c11.py on every run from pdfminer/utils.py (bbox2str).\n"
+           "  Do not edit.\n-/\nimport PdfVerif.Model.Format\n\nnamespace PdfVerif.Gen.ConvertFmt\nopen PdfVerif.Convert\n\n"
+           + bbox2str_def() + "\nend PdfVerif.Gen.ConvertFmt\n")
+    p3 = os.path.join(lean_dir, "PdfVerif", "Gen", "ConvertFmt.lean")
+    P.write_if_changed(p3, fmt)
+    return [p1, p2, p3]
